@@ -1,6 +1,6 @@
 (* Lemmas about len / item access / iteration of primitives (C10). *)
 From Coq Require Import List Bool Arith ZArith NArith Lia.
-From PC Require Import Base.Outcome Model.IndexTable Model.PrimCtor Model.PrimIter
+From PC Require Import Base.Outcome Base.Mat Model.IndexTable Model.PrimCtor Model.PrimIter
   Proofs.IndexTable Proofs.PrimCtor.
 Import ListNotations.
 
@@ -47,19 +47,16 @@ Qed.
 Lemma poly_k kd : is_poly kd = true -> kind_k kd = 1.
 Proof. destruct kd; simpl; congruence. Qed.
 
-(* the exclusion of the recorded finding: a primitive without rows has no items *)
-Definition guard (p : iprim) : Prop := ip_nrows p = 0 -> ilen p = 0.
-
-Lemma range_of_spec p i : iwf p -> guard p -> i < ilen p ->
+Lemma range_of_spec p i : iwf p -> i < ilen p ->
   range_of p i = Ok (spec_range p i) /\
-  fst (spec_range p i) + snd (spec_range p i) <= ip_nrows p * kind_k (ip_kind p) /\ ip_nrows p <> 0.
+  fst (spec_range p i) + snd (spec_range p i) <= ip_nrows p * kind_k (ip_kind p).
 Proof.
-  intros [W1 _] G Hi. assert (NZ : ip_nrows p <> 0) by (intro Z; specialize (G Z); lia).
+  intros [W1 _] Hi.
   unfold range_of, spec_range, ilen in *. destruct (is_poly (ip_kind p)) eqn:Ep.
-  - rewrite (nth_error_nth' _ 0 Hi). unfold start_of. repeat split; auto. simpl.
+  - rewrite (nth_error_nth' _ 0 Hi). unfold start_of. split; auto. simpl.
     rewrite (poly_k _ Ep). pose proof (sum_firstn_nth _ _ Hi). rewrite (W1 eq_refl) in H. lia.
-  - destruct (Nat.eqb_spec (ip_nrows p) 0); [contradiction|].
-    destruct (Nat.ltb_spec i (ip_nrows p)); [|lia]. repeat split; auto. simpl. nia.
+  - destruct (Nat.eqb_spec (ip_nrows p) 0); [lia|].
+    destruct (Nat.ltb_spec i (ip_nrows p)); [|lia]. split; auto. simpl. nia.
 Qed.
 
 Lemma gather_pick data idx st cnt : view_ok (length idx) (data, idx) -> st + cnt <= length idx ->
@@ -69,12 +66,29 @@ Proof.
   apply gather_total. apply Forall_pick; assumption.
 Qed.
 
-Lemma getitem_spec p i : iwf p -> guard p -> i < ilen p -> getitem p i = Ok (spec_item p i).
+Lemma sum_zero_nth l i : sum l = 0 -> nth i l 0 = 0.
 Proof.
-  intros W G Hi. destruct (range_of_spec p i W G Hi) as [Hr [Hb NZ]].
-  destruct W as [W1 [W2 [W3 [W4 W5]]]]. unfold getitem, spec_item. rewrite Hr.
+  revert i. induction l as [|a l IH]; intros i H; destruct i; simpl in *; auto; try lia. apply IH. lia.
+Qed.
+
+Lemma sum_zero_firstn l i : sum l = 0 -> sum (firstn i l) = 0.
+Proof.
+  revert i. induction l as [|a l IH]; intros i H; destruct i; simpl in *; auto. rewrite IH; lia.
+Qed.
+
+Lemma getitem_spec p i : iwf p -> i < ilen p -> getitem p i = Ok (spec_item p i).
+Proof.
+  intros W Hi. destruct (range_of_spec p i W Hi) as [Hr Hb].
+  destruct W as [W1 [W2 [W2' [W3 [W4 W5]]]]]. unfold getitem, spec_item. rewrite Hr.
+  destruct (ip_vertex p) as [[vdata vidx]|] eqn:Ev.
+  2: { (* no views: only polylists / polygons whose polygons all have zero corners *)
+    destruct (W2' eq_refl) as [En Et]. rewrite En, Et.
+    assert (Z : ip_nrows p = 0) by (destruct (Nat.eq_dec (ip_nrows p) 0); [auto|exfalso; now apply W2]).
+    unfold spec_range, ilen in *. destruct (is_poly (ip_kind p)) eqn:Ep; [|lia].
+    specialize (W1 eq_refl). rewrite Z in W1.
+    rewrite (sum_zero_nth _ i W1), (sum_zero_firstn _ i W1). simpl.
+    destruct (ip_kind p); try discriminate; reflexivity. }
   destruct (spec_range p i) as [st cnt]. simpl in Hb.
-  destruct (ip_vertex p) as [[vdata vidx]|] eqn:Ev; [|exfalso; apply (W2 NZ); reflexivity].
   pose proof (W3 _ eq_refl) as Vok. destruct Vok as [Vl Vr]. simpl in Vl, Vr.
   rewrite (gather_pick vdata vidx st cnt) by (try split; simpl; auto; lia).
   rewrite (slice_pick 0%N st cnt vidx) by lia.
@@ -102,15 +116,15 @@ Proof.
   - destruct (ip_nrows p =? 0); [reflexivity|]. rewrite Nat.ltb_irrefl. reflexivity.
 Qed.
 
-Lemma iter_is_map p : iwf p -> guard p -> iter p = Ok (map (spec_item p) (seq 0 (ilen p))).
+Lemma iter_is_map p : iwf p -> iter p = Ok (map (spec_item p) (seq 0 (ilen p))).
 Proof.
-  intros W G. unfold iter. apply legacy_iter_spec; [|apply getitem_end|lia].
+  intros W. unfold iter. apply legacy_iter_spec; [|apply getitem_end|lia].
   intros j Hj. apply getitem_spec; auto.
 Qed.
 
-Lemma shapes_is_map p : iwf p -> guard p -> shapes p = Ok (map (spec_item p) (seq 0 (ilen p))).
+Lemma shapes_is_map p : iwf p -> shapes p = Ok (map (spec_item p) (seq 0 (ilen p))).
 Proof.
-  intros W G. unfold shapes. apply omapM_all_ok. intros i Hi. apply in_seq in Hi.
+  intros W. unfold shapes. apply omapM_all_ok. intros i Hi. apply in_seq in Hi.
   apply getitem_spec; auto. lia.
 Qed.
 
@@ -143,6 +157,12 @@ Proof.
   unfold iwf, mk_iprim. simpl. repeat split.
   - intro Hp. rewrite Hk in Hp. auto.
   - intros NZ E. destruct (p_vertex p) eqn:Ev; [discriminate|]. apply (af_vertex _ _ _ _ _ F NZ). exact Ev.
+  - destruct (p_vertex p) eqn:Ev; [discriminate|].
+    destruct (Nat.eq_dec (p_nrows p) 0) as [Z|NZ]; [|exfalso; now apply (af_vertex _ _ _ _ _ F NZ)].
+    destruct (af_empty _ _ _ _ _ F Z) as [_ [_ [-> _]]]. reflexivity.
+  - destruct (p_vertex p) eqn:Ev; [discriminate|].
+    destruct (Nat.eq_dec (p_nrows p) 0) as [Z|NZ]; [|exfalso; now apply (af_vertex _ _ _ _ _ F NZ)].
+    destruct (af_empty _ _ _ _ _ F Z) as [_ [_ [_ ->]]]. reflexivity.
   - destruct (p_vertex p) as [v|] eqn:Ev; simpl in H0; [|discriminate]. inversion H0. subst x.
     apply (V fv v 3 Kv). now apply in_exposed_vertex.
   - destruct (p_vertex p) as [v|] eqn:Ev; simpl in H0; [|discriminate]. inversion H0. subst x.
@@ -171,17 +191,6 @@ Proof.
     try apply keeps_map; apply keeps_vw.
 Qed.
 
-(* the recorded finding is the only way to have items without rows *)
-Definition no_void_polygons (p : prim) : Prop :=
-  p_nrows p = 0 -> is_poly (p_kind p) = true -> p_vcounts p = [].
-
-Lemma guard_unbound p : no_void_polygons p -> guard (unbound p).
-Proof. unfold guard, ilen, unbound, no_void_polygons. simpl. intros H Z.
-  destruct (is_poly (p_kind p)) eqn:E; [rewrite H; auto|exact Z]. Qed.
-Lemma guard_bind p m mm : no_void_polygons p -> guard (bind p m mm).
-Proof. unfold guard, ilen, bind, no_void_polygons. simpl. intros H Z.
-  destruct (is_poly (p_kind p)) eqn:E; [rewrite H; auto|exact Z]. Qed.
-
 Lemma getitem_ok_lt p i it : getitem p i = Ok it -> i < ilen p.
 Proof.
   unfold getitem, range_of, ilen. destruct (is_poly (ip_kind p)).
@@ -200,3 +209,90 @@ Proof. intro H. unfold rows_at. now rewrite (nth_map' _ 0%N) by exact H. Qed.
 
 Lemma pick_length {A} (d : A) l st cnt : length (pick d l st cnt) = cnt.
 Proof. unfold pick. now rewrite map_length, seq_length. Qed.
+
+(* ---- Python index normalisation *)
+Lemma getitem_z_spec p z : iwf p ->
+  ((0 <= z < Z.of_nat (ilen p))%Z -> getitem_z p z = Ok (spec_item p (Z.to_nat z))) /\
+  ((- Z.of_nat (ilen p) <= z < 0)%Z -> getitem_z p z = Ok (spec_item p (Z.to_nat (z + Z.of_nat (ilen p))))) /\
+  ((z < - Z.of_nat (ilen p) \/ Z.of_nat (ilen p) <= z)%Z -> getitem_z p z = Raise PyIndexError).
+Proof.
+  intro W. unfold getitem_z, Py.norm_index.
+  destruct (Z.leb_spec 0 z); destruct (Z.ltb_spec z (Z.of_nat (ilen p)));
+    destruct (Z.leb_spec 0 (z + Z.of_nat (ilen p))); repeat split; intros; try lia; try reflexivity;
+    apply getitem_spec; auto; lia.
+Qed.
+
+(* ---- a bound item is the unbound item transformed *)
+Lemma rows_at_map (f : list Z -> list Z) data idx :
+  Forall (fun ix => (ix < N.of_nat (length data))%N) idx ->
+  rows_at (map f data) idx = map f (rows_at data idx).
+Proof.
+  intro H. unfold rows_at. rewrite map_map. apply map_ext_in. intros ix Hin.
+  rewrite Forall_forall in H. specialize (H _ Hin). apply nth_map'. lia.
+Qed.
+
+Lemma bound_item_transformed kd ins mat s p m mm i : construct kd ins mat s = Ok p -> i < ilen (unbound p) ->
+  let u := spec_item (unbound p) i in
+  let b := spec_item (bind p m mm) i in
+  it_indices b = it_indices u /\
+  it_vertices b = map (xform_point m) (it_vertices u) /\
+  it_texcoord_indices b = it_texcoord_indices u /\ it_texcoords b = it_texcoords u /\
+  (forall l, it_normal_indices u = NIdx l -> it_normal_indices b = NIdx l) /\
+  (forall rows, it_normals u = NRows rows -> it_normals b = NRows (map (xform_dir m) rows)) /\
+  (it_normals u = NNone -> it_normals b = NNone) /\
+  it_material b = match p_material p with Some sy => lookup mm sy | None => None end.
+Proof.
+  intros H Hi. pose proof (unbound_iwf _ _ _ _ _ H) as W.
+  destruct (range_of_spec _ i W Hi) as [_ Hb]. destruct W as [_ [W2a [W2b [W3 [W4 _]]]]].
+  cbv zeta. unfold spec_item.
+  change (spec_range (bind p m mm) i) with (spec_range (unbound p) i).
+  destruct (spec_range (unbound p) i) as [st cnt]. simpl in Hb.
+  unfold bind, unbound in *. simpl in *.
+  destruct (p_vertex p) as [vv|].
+  2: { (* no views: zero rows, so the item has no corners at all *)
+    assert (Z : p_nrows p = 0) by (destruct (Nat.eq_dec (p_nrows p) 0); [auto|exfalso; now apply W2a]).
+    rewrite Z in Hb. assert (cnt = 0) by lia. subst cnt.
+    destruct (W2b eq_refl) as [En Et].
+    destruct (p_normal p); [discriminate|]. destruct (p_texcoord p); [|discriminate].
+    simpl. repeat split; try reflexivity; intros; destruct (p_kind p); try discriminate; reflexivity. }
+  destruct (W3 _ eq_refl) as [Vl Vr]. simpl in Vl, Vr.
+  assert (PV : Forall (fun ix => (ix < N.of_nat (length (s_rows (v_src vv))))%N) (pick 0%N (v_idx vv) st cnt))
+    by (apply Forall_pick; [lia|exact Vr]).
+  destruct (p_normal p) as [nv|]; simpl.
+  - destruct (W4 _ eq_refl) as [Nl Nr]. simpl in Nl, Nr.
+    assert (PN : Forall (fun ix => (ix < N.of_nat (length (s_rows (v_src nv))))%N) (pick 0%N (v_idx nv) st cnt))
+      by (apply Forall_pick; [lia|exact Nr]).
+    repeat split; try reflexivity.
+    + now apply rows_at_map.
+    + intros l E. destruct (p_kind p); (exact E || discriminate).
+    + intros rows E. destruct (p_kind p); inversion E; subst; f_equal; now apply rows_at_map.
+    + intro E. destruct (p_kind p); discriminate.
+  - repeat split; try reflexivity.
+    + now apply rows_at_map.
+    + intros l E. destruct (p_kind p); discriminate.
+    + intros rows E. destruct (p_kind p); discriminate.
+    + intro E. destruct (p_kind p); [discriminate|reflexivity..].
+Qed.
+
+(* ---- the binding arithmetic is Base/Mat.v's: rows of matrix[:3, :] as an affine 4x4 matrix *)
+Definition mat_of_rows (m : list (list Z)) : matZ :=
+  let e i j := nth j (nth i m []) 0%Z in
+  Mat (e 0 0) (e 0 1) (e 0 2) (e 0 3) (e 1 0) (e 1 1) (e 1 2) (e 1 3) (e 2 0) (e 2 1) (e 2 2) (e 2 3) 0%Z 0%Z 0%Z 1%Z.
+Definition v3 (l : list Z) : vec3 Z := (nth 0 l 0%Z, nth 1 l 0%Z, nth 2 l 0%Z).
+Definition l3 (v : vec3 Z) : list Z := let '(a, b, c) := v in [a; b; c].
+Lemma xform_point_mat m v : length m = 3 ->
+  xform_point m v = l3 (xyz (zmapply (mat_of_rows m) (point 1%Z (v3 v)))).
+Proof.
+  intro H. destruct m as [|r0 [|r1 [|r2 [|]]]]; try discriminate.
+  cbv [xform_point map dot3 l3 xyz zmapply mapply mat_of_rows point v3 m00 m01 m02 m03 m10 m11 m12 m13 m20 m21 m22 m23 m30 m31 m32 m33].
+  cbn [nth]. repeat f_equal; ring.
+Qed.
+Lemma xform_dir_mat m v : length m = 3 ->
+  xform_dir m v = l3 (zlin_apply (mat_of_rows m) (v3 v)).
+Proof.
+  intro H. destruct m as [|r0 [|r1 [|r2 [|]]]]; try discriminate.
+  cbv [xform_dir map dot3 l3 zlin_apply lin_apply mat_of_rows v3 m00 m01 m02 m03 m10 m11 m12 m13 m20 m21 m22 m23].
+  cbn [nth]. reflexivity.
+Qed.
+Lemma mat_of_rows_affine m : affine 0%Z 1%Z (mat_of_rows m).
+Proof. cbv. auto. Qed.
